@@ -39,7 +39,9 @@ type K struct {
 	EmptyReads    int
 	SendErr       error
 	CloseErr      error
-	ClosedReadErr syscall.Errno // once Close was called every Receive fails with this (0 = queued datagrams stay readable)
+	ClosedReadErr syscall.Errno
+	// AllowZeroSeq: number requests as NetlinkClient does — the request after 4294967295 is number 0
+	AllowZeroSeq bool // once Close was called every Receive fails with this (0 = queued datagrams stay readable)
 	// OnSend is called for every request after it has been recorded; it queues
 	// the kernel's answer. Leftovers of the previous operation are dropped first
 	// unless KeepQueue is set.
@@ -86,7 +88,7 @@ func (k *K) Send(m syscall.NetlinkMessage) (uint32, error) {
 		return 0, k.SendErr
 	}
 	k.Seq++
-	if k.Seq == 0 { // the kernel uses 0 for unsolicited events; a request never carries it here
+	if k.Seq == 0 && !k.AllowZeroSeq { // the kernel uses 0 for unsolicited events; a request never carries it here
 		k.Seq++
 	}
 	s := Sent{Type: m.Header.Type, Flags: m.Header.Flags, Seq: k.Seq, Pid: m.Header.Pid, Data: append([]byte(nil), m.Data...)}
